@@ -79,8 +79,12 @@ EXTRA_VALUES = {
         "script-src 'self' 'unsafe-inline' https://a.example https://b.example data:; object-src 'none'"),
     'cryptoparser.dnsrec.txt:DnsRecordTxtValueSpf': (
         'v=spf1 -all', 'v=spf1 x= -all', 'v=spf1 a mx ~all', 'v=spf1 +mx ?a ~include:x.example +ip4:192.0.2.1 -all', 'v=spf1 +all',
-        'v=spf1 a/0 mx:example.com/24/0 a:x.example/0/128 mx/32 ip4:0.0.0.0/0 ip6:::/0 -all', 'v=spf1 a/0 -all', 'v=spf1 mx/0/0 ~all', 'v=spf1 ip4:192.0.2.0/24 ip6:2001:db8::/32 include:example.net ?all',
+        'v=spf1 a/0 mx:example.com/24/0 a:x.example/0/128 mx/32 ip4:0.0.0.0/0 ip6:::/0 -all', 'v=spf1 a/0 -all', 'v=spf1 mx/0/0 ~all', 'v=spf1 mx', 'v=spf1 a', 'v=spf1 include:x a', 'v=spf1 -all x=1', 'v=spf1 a/24', 'v=spf1 ptr', 'v=spf1 ip4:192.0.2.0/24 ip6:2001:db8::/32 include:example.net ?all',
         'v=spf1 redirect=example.org', 'v=spf1 a:a.example mx:b.example/24 exists:%{i}.c.example -all'),
+    'cryptoparser.httpx.header:HttpHeaderFieldValueNetworkErrorLogging': (
+        '{"report_to": "x", "max_age": 0}', '{"report_to": "x", "max_age": 1, "include_subdomains": false}',
+        '{"report_to": "x", "max_age": 86400, "include_subdomains": true, "success_fraction": 0.0, "failure_fraction": 0}',
+        '{"report_to": "group", "max_age": 2592000, "success_fraction": 1.0, "failure_fraction": 0.5}'),
     'cryptoparser.dnsrec.txt:DnsRecordTxtValueDmarc': (
         'v=DMARC1; p=none', 'v=DMARC1; p=reject; rua=mailto:a@example.com; pct=100', 'v=DMARC1; p=none; ruf=mailto:f@example.com?subject=fail', 'v=DMARC1; p=quarantine; sp=none; adkim=s; aspf=r'),
     'cryptoparser.dnsrec.txt:DnsRecordTxtValueMtaSts': ('v=STSv1; id=1', 'v=STSv1; id=20160831085700Z'),
